@@ -15,19 +15,20 @@ import (
 
 // the harness's own view of one end device (a reference device, not the library)
 type simDev struct {
-	eui, appeui     protocol.EUI
-	appkey          []byte
-	nwk, app        []byte
-	addr            uint32
-	fcnt            uint16 // next uplink counter the device will use
-	relaxed         bool
-	otaa            bool
-	joined          bool
-	usedNonces      []uint16
-	lastNonce       uint16
-	fup0, fdn0      uint16
-	nextCreated     int64
-	registered      bool
+	eui, appeui protocol.EUI
+	appkey      []byte
+	nwk, app    []byte
+	addr        uint32
+	fcnt        uint16 // next uplink counter the device will use
+	relaxed     bool
+	otaa        bool
+	joined      bool
+	usedNonces  []uint16
+	lastNonce   uint16
+	fup0, fdn0  uint16
+	nextCreated int64
+	registered  bool
+	zeroKey     bool
 }
 
 type histProfile struct {
@@ -55,15 +56,15 @@ func genEUI(rng *rand.Rand) uint64 {
 }
 
 type histRunner struct {
-	w      *World
-	rng    *rand.Rand
-	devs   []*simDev
-	apps   []protocol.EUI
-	events []string
-	obs    []string
-	ts     int64
-	gws    []uint64
-	tags   map[string]int
+	w         *World
+	rng       *rand.Rand
+	devs      []*simDev
+	apps      []protocol.EUI
+	events    []string
+	obs       []string
+	ts        int64
+	gws       []uint64
+	tags      map[string]int
 	lastValid map[int][]byte
 }
 
@@ -165,7 +166,10 @@ func (h *histRunner) validUplink(d *simDev, confirmed bool, ackFlag bool, fcnt u
 
 func corrupt(rng *rand.Rand, f []byte) ([]byte, string) {
 	g := append([]byte{}, f...)
-	switch rng.Intn(7) {
+	switch rng.Intn(8) {
+	case 7:
+		g[0] ^= byte(1+rng.Intn(7)) << 2 // RFU bits of the MHDR
+		return g, "corrupt.mhdr-rfu"
 	case 0, 1:
 		bit := rng.Intn(len(g) * 8)
 		g[bit/8] ^= 1 << uint(bit%8)
@@ -210,6 +214,9 @@ func runHistory(rng *rand.Rand, prof histProfile, w *Writer, suite string) {
 	for i := 0; i < ndev; i++ {
 		d := &simDev{eui: eui64(genEUI(rng)), appeui: h.apps[rng.Intn(len(h.apps))], appkey: genKey(rng), relaxed: rng.Intn(4) == 0}
 		kind := rng.Intn(3)
+		if rng.Intn(8) == 0 {
+			kind = 3
+		}
 		state := model.PersonalizedDevice
 		switch kind {
 		case 0: // ABP
@@ -226,6 +233,13 @@ func runHistory(rng *rand.Rand, prof histProfile, w *Writer, suite string) {
 			d.otaa = true
 			d.nwk, d.app = make([]byte, 16), make([]byte, 16)
 			state = model.OverTheAirDevice
+		case 3: // a row without session keys that is not an un-joined OTAA device (disabled, or ABP provisioned with zero keys)
+			d.nwk, d.app = make([]byte, 16), make([]byte, 16)
+			if rng.Intn(2) == 0 {
+				d.addr = rng.Uint32() & 0x01ffffff
+			}
+			state = []model.DeviceState{model.DisabledDevice, model.PersonalizedDevice}[rng.Intn(2)]
+			d.zeroKey = true
 		default: // OTAA that joined earlier (keys present, address assigned)
 			d.otaa = true
 			d.nwk, d.app = randBytes(rng, 16), randBytes(rng, 16)
@@ -263,8 +277,8 @@ func runHistory(rng *rand.Rand, prof histProfile, w *Writer, suite string) {
 		case r < prof.wUplink || (r < prof.wUplink+prof.wCorrupt && true):
 			isCorrupt := r >= prof.wUplink
 			if !d.joined {
-				// a frame "for" a device without a session: DevAddr 0 under the all-zero key, or garbage
-				f := refUplink(make([]byte, 16), make([]byte, 16), 2, 0, uint16(rng.Intn(3)), 0, nil, 1+rng.Intn(200), randBytes(rng, rng.Intn(10)))
+				// a frame "for" a device without a session: its DevAddr under the all-zero key
+				f := refUplink(make([]byte, 16), make([]byte, 16), byte(2+2*rng.Intn(2)), d.addr, uint16(rng.Intn(3)), 0, nil, 1+rng.Intn(200), randBytes(rng, rng.Intn(10)))
 				h.rx(f, "uplink.zero-key")
 				continue
 			}
@@ -365,6 +379,10 @@ func runHistory(rng *rand.Rand, prof histProfile, w *Writer, suite string) {
 				g := append(append([]byte{}, f[:19]...), 0)
 				f = append(g, refCMAC(d.appkey, g)[:4]...)
 				tag = "join.24-bytes"
+			case 4: // RFU bits of the MHDR altered: the MIC covers the MHDR as received
+				f = append([]byte{}, f...)
+				f[0] |= byte(1+rng.Intn(7)) << 2
+				tag = "join.mhdr-rfu"
 			}
 			if strings.HasPrefix(tag, "join.fresh") || tag == "join.reused-nonce" {
 				d.lastNonce = nonce
